@@ -176,11 +176,29 @@ pub fn pairs_related(dom: &[Vec<u8>], win: bool, nrand: usize, seed: u64) -> Vec
             out.push((a.clone(), b.clone()));
             out.push((b, a.clone()));
         }
+        // the same bytes with the CASE of one letter changed (equal only where the letter is a drive letter
+        // in prefix position; `cache\\c:index` / `cache\\C:index` are different names)
+        let letters: Vec<usize> = a.iter().enumerate().filter(|(_, b)| b.is_ascii_alphabetic()).map(|(i, _)| i).collect();
+        let step = (letters.len() / 6).max(1);
+        for i in letters.iter().step_by(step) {
+            let mut b = a.clone();
+            b[*i] ^= 0x20;
+            out.push((a.clone(), b));
+        }
         for _ in 0..nrand {
             out.push((a.clone(), rng.pick(dom).clone()));
         }
     }
     out
+}
+
+/// the small domain of the comparison property: the usual one plus every short string over a separator, two
+/// letters of different case and `:` (drive-like text in EVERY component position, for the case-flip pairs)
+pub fn c05_small(win: bool, tier: &str, seed: u64) -> Vec<Vec<u8>> {
+    let t = tier_is_thorough(tier);
+    let mut d = if win { dom_win_small(tier, seed) } else { dom_unix_small(tier, seed) };
+    d.extend(strings_b(if win { b"\\a:C" } else { b"/a:C" }, if t { 6 } else { 5 }));
+    dedup_keep_order(d)
 }
 
 /// (path, candidate prefix / suffix) pairs
@@ -552,7 +570,7 @@ pub fn gen(prop: &str, tier: &str, seed: u64) -> Vec<String> {
         }
         "C05" => {
             for win in [false, true] {
-                let d = if win { dom_win_small(tier, seed) } else { dom_unix_small(tier, seed) };
+                let d = c05_small(win, tier, seed);
                 let p = pairs_related(&d, win, if t { 40 } else { 8 }, seed);
                 fam_pairs("rel", win, &p, &mut out);
                 let big = if win { dom_win(tier, seed) } else { dom_unix(tier, seed) };
